@@ -48,7 +48,24 @@ pub struct Ghost {
 pub type Cache<E> = RawCache<E, IdHasher, VecIndexer<E>>;
 pub type Entry<E> = RawCacheEntry<E, IdHasher, VecIndexer<E>>;
 
-fn mk_cache<E>(capacity: usize, cfg: E::Config, log: Option<Arc<EventLog>>, pipe: Option<Arc<RecPipe>>) -> Cache<E>
+/// Literal answers for the weighter / filter inside a case of the case split (None = compute from the value).
+pub struct Force {
+    w: Cell<Option<usize>>,
+    rej: Cell<Option<bool>>,
+}
+unsafe impl Send for Force {}
+unsafe impl Sync for Force {}
+impl Force {
+    pub fn new() -> Self {
+        Force { w: Cell::new(None), rej: Cell::new(None) }
+    }
+    pub fn set(&self, w: Option<usize>, rej: Option<bool>) {
+        self.w.set(w);
+        self.rej.set(rej);
+    }
+}
+
+fn mk_cache<E>(capacity: usize, cfg: E::Config, log: Option<Arc<EventLog>>, pipe: Option<Arc<RecPipe>>, force: Arc<Force>) -> Cache<E>
 where
     E: Eviction<Key = u64, Value = u64, Properties = HProps>,
 {
@@ -57,15 +74,33 @@ where
         shards: 1,
         eviction_config: cfg,
         hash_builder: IdHasher,
-        weighter: Arc::new(|_k: &u64, v: &u64| weight_of(*v)),
-        filter: Arc::new(|_k: &u64, v: &u64| v & 4 == 0),
+        weighter: {
+            let f = force.clone();
+            Arc::new(move |_k: &u64, v: &u64| match f.w.get() {
+                Some(w) => w,
+                None => weight_of(*v),
+            })
+        },
+        filter: {
+            let f = force.clone();
+            Arc::new(move |_k: &u64, v: &u64| match f.rej.get() {
+                Some(r) => !r,
+                None => v & 4 == 0,
+            })
+        },
         event_listener: log.map(|l| l as Arc<dyn EventListener<Key = u64, Value = u64>>),
         metrics: Arc::new(Metrics::noop()),
     });
-    match pipe {
+    let c = match pipe {
         Some(p) => c.with_pipe(p),
         None => c,
-    }
+    };
+    // One extra, never released strong reference to the cache internals (inner + pipe Arcs).  Handles clone those Arcs
+    // under symbolic conditions (e.g. "remove found the key"), so at a handle's drop the reference count is an if-then-else
+    // term; without the spare reference CBMC cannot syntactically rule out "this was the last reference" and symbolically
+    // executes the whole cache teardown (RawCacheInner::drop -> clear) on an infeasible path at every handle drop.
+    std::mem::forget(c.clone());
+    c
 }
 
 /// C05-A1: usage()/entries() equal the sum / count over the keys a lookup still finds, where the weight of a found key
@@ -117,7 +152,20 @@ pub struct Sc {
     pub pinning: bool,
     /// install the recording listener and the recording pipe (C13)
     pub observe: bool,
+    /// keep the handle returned by the pre-state insert of KEYS[0] alive across the step (a handle that was NOT
+    /// obtained by a lookup: it counts as a reference but does not pin)
+    pub keep_insert_handle: bool,
+    /// weight (0..=3) and admission-filter outcome of the value the operation inserts: LITERAL per harness.  They decide
+    /// how many evictions happen, i.e. the shape of the heap; leaving them symbolic makes CBMC merge different heap
+    /// shapes (measured: 17-21 GB, 7+ min per harness, also with an in-harness case split).  The rest of the value (a
+    /// 32-bit payload in bits 4..) is symbolic.
+    pub lit: (usize, bool),
     pub op: u8,
+    /// key index the operation works on: Some = concrete, None = symbolic.  Operations that return an OPTIONAL handle
+    /// (get / remove / touch) use a concrete key: with a symbolic one the handle - and with it a clone of the cache's
+    /// internal Arcs - exists only under a symbolic condition, the reference counts become if-then-else terms and CBMC
+    /// then symbolically executes the whole cache teardown on the (infeasible) "last reference" path of every drop.
+    pub key: Option<usize>,
 }
 
 pub const OP_INSERT: u8 = 0;
@@ -129,6 +177,7 @@ pub const OP_TOUCH: u8 = 5;
 pub const OP_CLEAR: u8 = 6;
 pub const OP_EVICT_ALL: u8 = 7;
 pub const OP_GET_HOLD_INSERT: u8 = 8; // C18: look up k, hold, then insert another key; held entry must stay intact
+pub const OP_TOUCH_INSERT: u8 = 9; // C18/C05: touch k (no handle is created), then insert: nothing may stay pinned
 
 fn step<E>(cfg: E::Config, sc: Sc)
 where
@@ -144,10 +193,12 @@ where
     };
     let log = if sc.observe { Some(Arc::new(EventLog::new())) } else { None };
     let pipe = if sc.observe { Some(Arc::new(RecPipe::new(true))) } else { None };
-    let cache: Cache<E> = mk_cache(capacity, cfg, log.clone(), pipe.clone());
+    let force = Arc::new(Force::new());
+    let cache: Cache<E> = mk_cache(capacity, cfg, log.clone(), pipe.clone(), force.clone());
     let mut ghost = Ghost { last: [None; 3] };
 
     // ---- pre-state ----
+    let mut kept: Option<Entry<E>> = None;
     let mut i = 0;
     while i < sc.n_pre {
         let v: u64 = match sc.pre[i] {
@@ -160,7 +211,11 @@ where
         };
         let e = cache.insert(KEYS[i], v | 8); // bit 3 marks "pre-state version"
         ghost.last[i] = Some(v | 8);
-        drop(e);
+        if i == 0 && sc.keep_insert_handle {
+            kept = Some(e);
+        } else {
+            drop(e);
+        }
         i += 1;
     }
     sync_ghost(&cache, &mut ghost);
@@ -173,29 +228,75 @@ where
     let ev0 = log.as_ref().map(|l| l.n.get()).unwrap_or(0);
     let pp0 = pipe.as_ref().map(|p| p.n.get()).unwrap_or(0);
 
+    let ki = match sc.key {
+        Some(i) => i,
+        None => any_key_idx(),
+    };
+    let st = St { capacity, pinned, pre_usage, pre, ev0, pp0, held_copy };
     // ---- the step ----
-    let ki = any_key_idx();
+    // The inserted value: literal weight / filter bit (see `Sc::lit`), symbolic 32-bit payload.
+    let payload: u32 = kani::any();
+    let v: u64 = ((payload as u64) << 4) | (sc.lit.0 as u64) | if sc.lit.1 { 4 } else { 0 };
+    force.set(Some(sc.lit.0), Some(sc.lit.1));
+    step_body::<E>(&sc, &st, &cache, &mut ghost, log.as_ref(), pipe.as_ref(), held.as_ref(), &force, ki, v);
+    if let Some(kh) = kept.as_ref() {
+        assert!(*kh.key() == KEYS[0] && kh.weight() == weight_of(*kh.value()) && *kh.value() & 8 != 0, "C18: kept insert handle changed");
+    }
+    kani::cover!(true, "end reached");
+    std::mem::forget(kept);
+    std::mem::forget(held);
+    std::mem::forget(cache);
+}
+
+pub struct St {
+    capacity: usize,
+    pinned: bool,
+    pre_usage: usize,
+    pre: [Option<u64>; 3],
+    ev0: usize,
+    pp0: usize,
+    held_copy: Option<(u64, u64, usize)>,
+}
+
+#[allow(clippy::too_many_arguments)]
+fn step_body<E>(
+    sc: &Sc,
+    st: &St,
+    cache: &Cache<E>,
+    ghost: &mut Ghost,
+    log: Option<&Arc<EventLog>>,
+    pipe: Option<&Arc<RecPipe>>,
+    held: Option<&Entry<E>>,
+    force: &Force,
+    ki: usize,
+    v: u64,
+) where
+    E: Eviction<Key = u64, Value = u64, Properties = HProps>,
+{
+    let (capacity, pinned, pre_usage, pre, ev0, pp0, held_copy) = (st.capacity, st.pinned, st.pre_usage, st.pre, st.ev0, st.pp0, st.held_copy);
     let k = KEYS[ki];
+    // literal weight / filter outcome of the case (equal to what the symbolic value says: asserted where it is inserted)
+    let lit_w = force.w.get().unwrap_or(weight_of(v));
+    let lit_rej = force.rej.get().unwrap_or(v & 4 != 0);
     // expected leave reason of the pre-state entry of key k, if it leaves through the operation itself
     let mut own_reason: u8 = 0;
     match sc.op {
         OP_INSERT | OP_INSERT_LOW | OP_INSERT_DISK => {
-            let v: u64 = kani::any();
-            kani::assume(v < 8); // bit 3 clear: "new version"
             let props = match sc.op {
                 OP_INSERT => HProps::default(),
                 OP_INSERT_LOW => HProps::default().with_hint(Hint::Low),
                 _ => HProps::default().with_location(Location::OnDisk),
             };
-            let phantom = sc.op == OP_INSERT_DISK || (v & 4 != 0);
+            let phantom = sc.op == OP_INSERT_DISK || lit_rej;
             let e = cache.insert_with_properties(k, v, props);
+            assert!(lit_w == weight_of(v) && lit_rej == (v & 4 != 0), "harness: case literals differ from the symbolic value");
             assert!(*e.key() == k && *e.value() == v && e.weight() == weight_of(v));
             own_reason = EventLog::code(Event::Replace);
             if phantom {
                 ghost.last[ki] = None;
                 assert!(!cache.contains(&k), "C12-P1/C01-S1: on-disk / filtered insert stays findable in memory");
                 assert!(e.is_outdated(), "C18: handle of a non-resident entry claims to be current");
-                if let Some(p) = pipe.as_ref() {
+                if let Some(p) = pipe {
                     assert!(p.count_kv(k, v) == 0, "C13/C12-P1: disk-only entry handed to the disk tier before its last handle is dropped");
                 }
                 kani::cover!(pre[ki].is_some(), "opt: phantom over resident");
@@ -203,7 +304,7 @@ where
                 ghost.last[ki] = Some(v);
                 assert!(cache.contains(&k), "insert: new entry not findable right after insert");
                 assert!(!e.is_outdated(), "C18: handle of the current entry claims to be outdated");
-                let w = weight_of(v);
+                let w = lit_w;
                 if w <= capacity && !pinned {
                     assert!(cache.usage() <= capacity, "C05-A2: over capacity after insert with nothing pinned");
                 }
@@ -227,7 +328,7 @@ where
             }
             drop(e);
             if phantom {
-                if let Some(p) = pipe.as_ref() {
+                if let Some(p) = pipe {
                     assert!(p.count_kv(k, v) == 1, "C13/C12-P1: disk-only entry not handed to the disk tier exactly once at last drop");
                 }
             }
@@ -256,7 +357,7 @@ where
                     assert!(*e.key() == k);
                     assert!(Some(*e.value()) == pre[ki], "lookup returned a value that is not the latest insert");
                     assert!(!e.is_outdated(), "C18: fresh lookup handle claims to be outdated");
-                    assert!(e.refs() == if sc.hold_first && ki == 0 { 2 } else { 1 }, "C18: refs() != number of live handles");
+                    assert!(e.refs() == 1 + usize::from(sc.hold_first && ki == 0) + usize::from(sc.keep_insert_handle && ki == 0), "C18: refs() != number of live handles");
                     let c = e.clone();
                     assert!(c.refs() == e.refs() && *c.value() == *e.value());
                     drop(c);
@@ -283,13 +384,23 @@ where
                 assert!(cache.usage() == 0 && cache.entries() == 0, "evict_all leaves entries although nothing is pinned");
             }
         }
+        OP_TOUCH_INSERT => {
+            let t = cache.touch(&k);
+            assert!(t == pre[ki].is_some());
+            // no handle exists now; an insert must be able to bring the cache back within capacity (nothing stays pinned)
+            let kj = (ki + 2) % 3; // concrete second key (for k0: the absent key 32)
+            let e = cache.insert(KEYS[kj], v);
+            ghost.last[kj] = Some(v);
+            assert!(lit_w == weight_of(v) && !lit_rej);
+            if lit_w <= capacity && !pinned {
+                assert!(cache.usage() <= capacity, "C18/C05: over capacity after touch + insert although no handle is outstanding (touched entry stays pinned)");
+            }
+            drop(e);
+        }
         _ => {
             // OP_GET_HOLD_INSERT (C18): hold a looked-up handle of k across an insert of another key
             let g = cache.get(&k);
-            let kj = any_key_idx();
-            kani::assume(kj != ki);
-            let v: u64 = kani::any();
-            kani::assume(v < 4);
+            let kj = (ki + 2) % 3; // concrete second key
             let e = cache.insert(KEYS[kj], v);
             ghost.last[kj] = Some(v);
             if let Some(h) = g.as_ref() {
@@ -304,7 +415,8 @@ where
             drop(e);
             drop(g);
             // after the last handle is gone, one more insert brings the cache back within capacity
-            let kl = any_key_idx();
+            let kl = kj;
+            force.set(Some(1), Some(false));
             let e2 = cache.insert(KEYS[kl], 1);
             ghost.last[kl] = Some(1);
             if capacity >= 1 && !pinned {
@@ -313,11 +425,11 @@ where
             drop(e2);
         }
     }
-    sync_ghost(&cache, &mut ghost);
-    check_accounting(&cache, &ghost);
+    sync_ghost(cache, ghost);
+    check_accounting(cache, ghost);
 
     // ---- C18: the handle held across the step is intact and truthful ----
-    if let (Some(h), Some((hk, hv, hw))) = (held.as_ref(), held_copy) {
+    if let (Some(h), Some((hk, hv, hw))) = (held, held_copy) {
         assert!(*h.key() == hk && *h.value() == hv && h.weight() == hw, "C18: held entry's key/value/weight changed");
         let still = cache.contains(&KEYS[0]) && ghost.last[0] == Some(hv);
         assert!(h.is_outdated() == !still, "C18: is_outdated() disagrees with what a lookup returns");
@@ -327,7 +439,7 @@ where
     }
 
     // ---- C13: conservation of leave notifications and disk hand-off ----
-    if let (Some(l), Some(p)) = (log.as_ref(), pipe.as_ref()) {
+    if let (Some(l), Some(p)) = (log, pipe) {
         let mut j = 0;
         while j < 3 {
             if let Some(v) = pre[j] {
@@ -364,9 +476,6 @@ where
         kani::cover!(l.n.get() > ev0, "opt: a leave notification was produced");
         kani::cover!(p.n.get() > pp0, "opt: an entry was offered to the disk tier");
     }
-    kani::cover!(true, "end reached");
-    std::mem::forget(held);
-    std::mem::forget(cache);
 }
 
 macro_rules! step_harness {
@@ -378,7 +487,13 @@ macro_rules! step_harness {
 }
 
 pub const fn sc(cap: Option<usize>, pre: [Option<u64>; 3], n_pre: usize, hold_first: bool, pinning: bool, observe: bool, op: u8) -> Sc {
-    Sc { cap, pre, n_pre, hold_first, pinning, observe, op }
+    Sc { cap, pre, n_pre, hold_first, pinning, observe, op, key: None, keep_insert_handle: false, lit: (1, false) }
+}
+pub const fn sc_keep(cap: Option<usize>, pre: [Option<u64>; 3], n_pre: usize, hold_first: bool, pinning: bool, observe: bool, op: u8) -> Sc {
+    Sc { cap, pre, n_pre, hold_first, pinning, observe, op, key: None, keep_insert_handle: true, lit: (1, false) }
+}
+pub const fn sck(cap: Option<usize>, pre: [Option<u64>; 3], n_pre: usize, hold_first: bool, pinning: bool, observe: bool, op: u8, key: usize) -> Sc {
+    Sc { cap, pre, n_pre, hold_first, pinning, observe, op, key: Some(key), keep_insert_handle: false, lit: (1, false) }
 }
 
 type FifoT = Fifo<u64, u64, HProps>;
@@ -390,40 +505,100 @@ type LfuT = Lfu<u64, u64, HProps>;
 const FULL2: [Option<u64>; 3] = [Some(1), Some(1), None]; // two entries of weight 1
 const HEAVY: [Option<u64>; 3] = [Some(2), Some(1), None]; // weights 2 + 1
 
-// ---- FIFO, capacity 2 full (every insert of weight >= 1 evicts) ----
-step_harness!(raw_fifo_c2_ins, FifoT, FifoConfig::default(), sc(Some(2), FULL2, 2, false, false, true, OP_INSERT));
-step_harness!(raw_fifo_c2_insdisk, FifoT, FifoConfig::default(), sc(Some(2), FULL2, 2, false, false, true, OP_INSERT_DISK));
-step_harness!(raw_fifo_c2_remove, FifoT, FifoConfig::default(), sc(Some(2), FULL2, 2, false, false, true, OP_REMOVE));
-step_harness!(raw_fifo_c2_get, FifoT, FifoConfig::default(), sc(Some(2), FULL2, 2, false, false, true, OP_GET));
-step_harness!(raw_fifo_c2_touch, FifoT, FifoConfig::default(), sc(Some(2), FULL2, 2, false, false, false, OP_TOUCH));
-step_harness!(raw_fifo_c2_clear, FifoT, FifoConfig::default(), sc(Some(2), FULL2, 2, false, false, true, OP_CLEAR));
-step_harness!(raw_fifo_c2_evictall, FifoT, FifoConfig::default(), sc(Some(2), FULL2, 2, false, false, true, OP_EVICT_ALL));
-step_harness!(raw_fifo_c2_hold_ins, FifoT, FifoConfig::default(), sc(Some(2), FULL2, 2, true, false, false, OP_INSERT));
-step_harness!(raw_fifo_c2_holdins, FifoT, FifoConfig::default(), sc(Some(2), FULL2, 2, false, false, false, OP_GET_HOLD_INSERT));
-// ---- FIFO, capacity 3 with weights 2+1, capacity 4 with slack, empty cache, capacity 0 ----
-step_harness!(raw_fifo_c3_ins, FifoT, FifoConfig::default(), sc(Some(3), HEAVY, 2, false, false, true, OP_INSERT));
-step_harness!(raw_fifo_c4_ins, FifoT, FifoConfig::default(), sc(Some(4), HEAVY, 2, false, false, false, OP_INSERT));
-step_harness!(raw_fifo_c2_p0_ins, FifoT, FifoConfig::default(), sc(Some(2), [None; 3], 0, false, false, true, OP_INSERT));
-step_harness!(raw_fifo_c0_p0_ins, FifoT, FifoConfig::default(), sc(Some(0), [None; 3], 0, false, false, false, OP_INSERT));
-step_harness!(raw_fifo_sym_p0_ins, FifoT, FifoConfig::default(), sc(None, [None; 3], 0, false, false, false, OP_INSERT));
+// Keys, the inserted weight and the filter outcome are literal per harness (k0 = 16 resident, k1 = 17 resident and colliding
+// with 16, k2 = 32 absent; wN = weight N; r = rejected by the admission filter); the payload of the inserted value is symbolic.
+macro_rules! st {
+    ($name:ident, $e:ty, $cfg:expr, $cap:expr, $pre:expr, $npre:expr, $hold:expr, $pin:expr, $obs:expr, $op:expr, $key:expr, $w:expr, $rej:expr) => {
+        step_harness!($name, $e, $cfg, Sc { lit: ($w, $rej), ..sck($cap, $pre, $npre, $hold, $pin, $obs, $op, $key) });
+    };
+}
+macro_rules! step3 {
+    ($n0:ident, $n1:ident, $n2:ident, $e:ty, $cfg:expr, $cap:expr, $pre:expr, $npre:expr, $hold:expr, $pin:expr, $obs:expr, $op:expr) => {
+        step_harness!($n0, $e, $cfg, sck($cap, $pre, $npre, $hold, $pin, $obs, $op, 0));
+        step_harness!($n1, $e, $cfg, sck($cap, $pre, $npre, $hold, $pin, $obs, $op, 1));
+        step_harness!($n2, $e, $cfg, sck($cap, $pre, $npre, $hold, $pin, $obs, $op, 2));
+    };
+}
+const FC: FifoConfig = FifoConfig {};
+// ---- FIFO, capacity 2, resident 16,17 (weight 1 each): insert ----
+st!(raw_fifo_c2_ins_k2_w0, FifoT, FC, Some(2), FULL2, 2, false, false, true, OP_INSERT, 2, 0, false);
+st!(raw_fifo_c2_ins_k2_w1, FifoT, FC, Some(2), FULL2, 2, false, false, true, OP_INSERT, 2, 1, false);
+st!(raw_fifo_c2_ins_k2_w2, FifoT, FC, Some(2), FULL2, 2, false, false, true, OP_INSERT, 2, 2, false);
+st!(raw_fifo_c2_ins_k2_w3, FifoT, FC, Some(2), FULL2, 2, false, false, true, OP_INSERT, 2, 3, false);
+st!(raw_fifo_c2_ins_k2_w1r, FifoT, FC, Some(2), FULL2, 2, false, false, true, OP_INSERT, 2, 1, true);
+st!(raw_fifo_c2_ins_k0_w0, FifoT, FC, Some(2), FULL2, 2, false, false, true, OP_INSERT, 0, 0, false);
+st!(raw_fifo_c2_ins_k0_w1, FifoT, FC, Some(2), FULL2, 2, false, false, true, OP_INSERT, 0, 1, false);
+st!(raw_fifo_c2_ins_k0_w2, FifoT, FC, Some(2), FULL2, 2, false, false, true, OP_INSERT, 0, 2, false);
+st!(raw_fifo_c2_ins_k0_w3, FifoT, FC, Some(2), FULL2, 2, false, false, true, OP_INSERT, 0, 3, false);
+st!(raw_fifo_c2_ins_k0_w2r, FifoT, FC, Some(2), FULL2, 2, false, false, true, OP_INSERT, 0, 2, true);
+st!(raw_fifo_c2_ins_k1_w1, FifoT, FC, Some(2), FULL2, 2, false, false, true, OP_INSERT, 1, 1, false);
+st!(raw_fifo_c2_ins_k1_w2, FifoT, FC, Some(2), FULL2, 2, false, false, true, OP_INSERT, 1, 2, false);
+st!(raw_fifo_c2_ins_k1_w0r, FifoT, FC, Some(2), FULL2, 2, false, false, true, OP_INSERT, 1, 0, true);
+// ---- disk-only insert (Location::OnDisk) over a resident key with a different weight, and of an absent key ----
+st!(raw_fifo_c2_insdisk_k0_w0, FifoT, FC, Some(2), FULL2, 2, false, false, true, OP_INSERT_DISK, 0, 0, false);
+st!(raw_fifo_c2_insdisk_k0_w2, FifoT, FC, Some(2), FULL2, 2, false, false, true, OP_INSERT_DISK, 0, 2, false);
+st!(raw_fifo_c2_insdisk_k1_w3, FifoT, FC, Some(2), FULL2, 2, false, false, true, OP_INSERT_DISK, 1, 3, false);
+st!(raw_fifo_c2_insdisk_k2_w1, FifoT, FC, Some(2), FULL2, 2, false, false, true, OP_INSERT_DISK, 2, 1, false);
+// ---- remove / get / touch / clear / evict_all ----
+step3!(raw_fifo_c2_remove_k0, raw_fifo_c2_remove_k1, raw_fifo_c2_remove_k2, FifoT, FC, Some(2), FULL2, 2, false, false, true, OP_REMOVE);
+step3!(raw_fifo_c2_get_k0, raw_fifo_c2_get_k1, raw_fifo_c2_get_k2, FifoT, FC, Some(2), FULL2, 2, false, false, false, OP_GET);
+st!(raw_fifo_c2_touch_ins_k0_w2, FifoT, FC, Some(2), FULL2, 2, false, false, false, OP_TOUCH_INSERT, 0, 2, false);
+step_harness!(raw_fifo_c2_clear, FifoT, FC, sc(Some(2), FULL2, 2, false, false, true, OP_CLEAR));
+step_harness!(raw_fifo_c2_evictall, FifoT, FC, sc(Some(2), FULL2, 2, false, false, true, OP_EVICT_ALL));
+// ---- a looked-up handle of 16 is held across the insert ----
+st!(raw_fifo_c2_hold_ins_k2_w1, FifoT, FC, Some(2), FULL2, 2, true, false, false, OP_INSERT, 2, 1, false);
+st!(raw_fifo_c2_hold_ins_k2_w2, FifoT, FC, Some(2), FULL2, 2, true, false, false, OP_INSERT, 2, 2, false);
+st!(raw_fifo_c2_hold_ins_k0_w1, FifoT, FC, Some(2), FULL2, 2, true, false, false, OP_INSERT, 0, 1, false);
+st!(raw_fifo_c2_holdins_k0_w1, FifoT, FC, Some(2), FULL2, 2, false, false, false, OP_GET_HOLD_INSERT, 0, 1, false);
+st!(raw_fifo_c2_holdins_k0_w2, FifoT, FC, Some(2), FULL2, 2, false, false, false, OP_GET_HOLD_INSERT, 0, 2, false);
+// ---- capacity 3 with weights 2+1, capacity 4 with slack, empty cache, capacity 0 and 1 ----
+st!(raw_fifo_c3_ins_k2_w0, FifoT, FC, Some(3), HEAVY, 2, false, false, true, OP_INSERT, 2, 0, false);
+st!(raw_fifo_c3_ins_k2_w1, FifoT, FC, Some(3), HEAVY, 2, false, false, true, OP_INSERT, 2, 1, false);
+st!(raw_fifo_c3_ins_k2_w2, FifoT, FC, Some(3), HEAVY, 2, false, false, true, OP_INSERT, 2, 2, false);
+st!(raw_fifo_c3_ins_k2_w3, FifoT, FC, Some(3), HEAVY, 2, false, false, true, OP_INSERT, 2, 3, false);
+st!(raw_fifo_c3_ins_k0_w1, FifoT, FC, Some(3), HEAVY, 2, false, false, true, OP_INSERT, 0, 1, false);
+st!(raw_fifo_c3_ins_k0_w3, FifoT, FC, Some(3), HEAVY, 2, false, false, true, OP_INSERT, 0, 3, false);
+st!(raw_fifo_c3_ins_k1_w3, FifoT, FC, Some(3), HEAVY, 2, false, false, true, OP_INSERT, 1, 3, false);
+st!(raw_fifo_c4_ins_k2_w1, FifoT, FC, Some(4), HEAVY, 2, false, false, false, OP_INSERT, 2, 1, false);
+st!(raw_fifo_c4_ins_k2_w2, FifoT, FC, Some(4), HEAVY, 2, false, false, false, OP_INSERT, 2, 2, false);
+st!(raw_fifo_c2_p0_ins_k0_w2, FifoT, FC, Some(2), [None; 3], 0, false, false, true, OP_INSERT, 0, 2, false);
+st!(raw_fifo_c2_p0_ins_k0_w3, FifoT, FC, Some(2), [None; 3], 0, false, false, true, OP_INSERT, 0, 3, false);
+st!(raw_fifo_c0_p0_ins_k0_w0, FifoT, FC, Some(0), [None; 3], 0, false, false, false, OP_INSERT, 0, 0, false);
+st!(raw_fifo_c0_p0_ins_k0_w1, FifoT, FC, Some(0), [None; 3], 0, false, false, false, OP_INSERT, 0, 1, false);
 
 // ---- LRU (pins looked-up entries) ----
 const LRU_CFG: LruConfig = LruConfig { high_priority_pool_ratio: 0.5 };
-step_harness!(raw_lru_c2_ins, LruT, LRU_CFG, sc(Some(2), FULL2, 2, false, true, true, OP_INSERT));
-step_harness!(raw_lru_c2_inslow, LruT, LRU_CFG, sc(Some(2), FULL2, 2, false, true, false, OP_INSERT_LOW));
-step_harness!(raw_lru_c2_hold_ins, LruT, LRU_CFG, sc(Some(2), FULL2, 2, true, true, true, OP_INSERT));
+st!(raw_lru_c2_ins_k2_w1, LruT, LRU_CFG, Some(2), FULL2, 2, false, true, true, OP_INSERT, 2, 1, false);
+st!(raw_lru_c2_ins_k2_w2, LruT, LRU_CFG, Some(2), FULL2, 2, false, true, true, OP_INSERT, 2, 2, false);
+st!(raw_lru_c2_ins_k2_w3, LruT, LRU_CFG, Some(2), FULL2, 2, false, true, true, OP_INSERT, 2, 3, false);
+st!(raw_lru_c2_ins_k0_w1, LruT, LRU_CFG, Some(2), FULL2, 2, false, true, true, OP_INSERT, 0, 1, false);
+st!(raw_lru_c2_ins_k1_w2, LruT, LRU_CFG, Some(2), FULL2, 2, false, true, true, OP_INSERT, 1, 2, false);
+st!(raw_lru_c2_inslow_k2_w1, LruT, LRU_CFG, Some(2), FULL2, 2, false, true, false, OP_INSERT_LOW, 2, 1, false);
+st!(raw_lru_c2_hold_ins_k2_w1, LruT, LRU_CFG, Some(2), FULL2, 2, true, true, true, OP_INSERT, 2, 1, false);
+st!(raw_lru_c2_hold_ins_k2_w2, LruT, LRU_CFG, Some(2), FULL2, 2, true, true, true, OP_INSERT, 2, 2, false);
+st!(raw_lru_c2_hold_ins_k2_w3, LruT, LRU_CFG, Some(2), FULL2, 2, true, true, true, OP_INSERT, 2, 3, false);
+st!(raw_lru_c2_hold_ins_k1_w1, LruT, LRU_CFG, Some(2), FULL2, 2, true, true, true, OP_INSERT, 1, 1, false);
+// the insert handle of key 16 is still alive when it is looked up: the lookup must pin all the same
+step_harness!(raw_lru_c2_keep_hold_ins_k2_w2, LruT, LRU_CFG, Sc { keep_insert_handle: true, lit: (2, false), ..sck(Some(2), FULL2, 2, true, true, false, OP_INSERT, 2) });
+step_harness!(raw_lru_c2_keep_hold_ins_k2_w1, LruT, LRU_CFG, Sc { keep_insert_handle: true, lit: (1, false), ..sck(Some(2), FULL2, 2, true, true, false, OP_INSERT, 2) });
 step_harness!(raw_lru_c2_hold_evictall, LruT, LRU_CFG, sc(Some(2), FULL2, 2, true, true, true, OP_EVICT_ALL));
 step_harness!(raw_lru_c2_hold_clear, LruT, LRU_CFG, sc(Some(2), FULL2, 2, true, true, false, OP_CLEAR));
-step_harness!(raw_lru_c2_hold_remove, LruT, LRU_CFG, sc(Some(2), FULL2, 2, true, true, false, OP_REMOVE));
-step_harness!(raw_lru_c2_get, LruT, LRU_CFG, sc(Some(2), FULL2, 2, false, true, false, OP_GET));
-step_harness!(raw_lru_c2_touch, LruT, LRU_CFG, sc(Some(2), FULL2, 2, false, true, false, OP_TOUCH));
-step_harness!(raw_lru_c2_holdins, LruT, LRU_CFG, sc(Some(2), FULL2, 2, false, true, false, OP_GET_HOLD_INSERT));
+step_harness!(raw_lru_c2_hold_remove_k0, LruT, LRU_CFG, sck(Some(2), FULL2, 2, true, true, false, OP_REMOVE, 0));
+step_harness!(raw_lru_c2_hold_remove_k1, LruT, LRU_CFG, sck(Some(2), FULL2, 2, true, true, false, OP_REMOVE, 1));
+step_harness!(raw_lru_c2_get_k0, LruT, LRU_CFG, sck(Some(2), FULL2, 2, false, true, false, OP_GET, 0));
+st!(raw_lru_c2_touch_ins_k0_w1, LruT, LRU_CFG, Some(2), FULL2, 2, false, true, false, OP_TOUCH_INSERT, 0, 1, false);
+st!(raw_lru_c2_touch_ins_k0_w2, LruT, LRU_CFG, Some(2), FULL2, 2, false, true, false, OP_TOUCH_INSERT, 0, 2, false);
+st!(raw_lru_c2_holdins_k0_w1, LruT, LRU_CFG, Some(2), FULL2, 2, false, true, false, OP_GET_HOLD_INSERT, 0, 1, false);
+st!(raw_lru_c2_holdins_k0_w2, LruT, LRU_CFG, Some(2), FULL2, 2, false, true, false, OP_GET_HOLD_INSERT, 0, 2, false);
 step_harness!(raw_lru_c2_clear, LruT, LRU_CFG, sc(Some(2), FULL2, 2, false, true, true, OP_CLEAR));
 
-// ---- SIEVE: insert with eviction, clear, hold-insert ----
-step_harness!(raw_sieve_c2_ins, SieveT, SieveConfig {}, sc(Some(2), FULL2, 2, false, false, true, OP_INSERT));
+// ---- SIEVE ----
+st!(raw_sieve_c2_ins_k2_w1, SieveT, SieveConfig {}, Some(2), FULL2, 2, false, false, true, OP_INSERT, 2, 1, false);
+st!(raw_sieve_c2_ins_k2_w2, SieveT, SieveConfig {}, Some(2), FULL2, 2, false, false, true, OP_INSERT, 2, 2, false);
+st!(raw_sieve_c2_ins_k0_w1, SieveT, SieveConfig {}, Some(2), FULL2, 2, false, false, true, OP_INSERT, 0, 1, false);
 step_harness!(raw_sieve_c2_clear, SieveT, SieveConfig {}, sc(Some(2), FULL2, 2, false, false, false, OP_CLEAR));
-step_harness!(raw_sieve_c2_holdins, SieveT, SieveConfig {}, sc(Some(2), FULL2, 2, false, false, false, OP_GET_HOLD_INSERT));
+st!(raw_sieve_c2_holdins_k0_w1, SieveT, SieveConfig {}, Some(2), FULL2, 2, false, false, false, OP_GET_HOLD_INSERT, 0, 1, false);
+st!(raw_sieve_c2_touch_ins_k0_w2, SieveT, SieveConfig {}, Some(2), FULL2, 2, false, false, false, OP_TOUCH_INSERT, 0, 2, false);
 
 // =====================================================================================================================
 // Shard-level harness on a stack-resident RawCacheShard: everything symbolic (capacity, weights, keys, operations).
@@ -518,8 +693,17 @@ where
                 let mut garbages: Vec<(Event, Arc<Record<E>>)> = Vec::with_capacity(5);
                 shard.evict(0, &mut garbages);
                 std::mem::forget(garbages);
-                gw = [None; 3];
-                assert!(shard.usage == 0 && shard.entries == 0, "evict(0) leaves entries although nothing is pinned");
+                // evict(0) stops as soon as usage is 0: entries of weight 0 behind the last weighted one may stay
+                assert!(shard.usage == 0, "evict(0) leaves weight although nothing is pinned");
+                let mut j = 0;
+                while j < 3 {
+                    if shard.indexer.get(KEYS[j] >> 4, &KEYS[j]).is_some() {
+                        assert!(gw[j] == Some(0), "evict(0) left a weighted entry resident");
+                    } else {
+                        gw[j] = None;
+                    }
+                    j += 1;
+                }
             }
         }
         // C05-A1 on the shard
@@ -644,17 +828,20 @@ where
     E: Eviction<Key = u64, Value = DropVal<ALG>, Properties = HProps>,
 {
     let cache: &Cache<E> = unsafe { &*(re.cache.get() as *const Cache<E>) };
+    // The nested operation always takes the shard's WRITE lock (the strictest probe: it conflicts with a held read lock
+    // and with a held write lock) and always returns a handle (no Option: see `Sc::key` for why optional handles are
+    // avoided).  action 0: insert of a fresh weight-0 key; 1: insert that replaces resident key 17; 2: disk-only insert.
     match re.action {
         0 => {
-            let g = cache.get(&re.key);
-            drop(g);
+            let e = cache.insert(48, DropVal { v: 0, re: std::ptr::null(), armed: false });
+            drop(e);
         }
         1 => {
-            let r = cache.remove(&re.key);
-            drop(r);
+            let e = cache.insert(17, DropVal { v: 1, re: std::ptr::null(), armed: false });
+            drop(e);
         }
         _ => {
-            let e = cache.insert(re.key, DropVal { v: 1, re: std::ptr::null(), armed: false });
+            let e = cache.insert_with_properties(48, DropVal { v: 0, re: std::ptr::null(), armed: false }, HProps::default().with_location(Location::OnDisk));
             drop(e);
         }
     }
@@ -702,7 +889,7 @@ where
             a
         }
     };
-    let re = Arc::new(Re { cache: Cell::new(std::ptr::null()), busy: Cell::new(false), action, key: KEYS[any_key_idx()], calls: Cell::new(0) });
+    let re = Arc::new(Re { cache: Cell::new(std::ptr::null()), busy: Cell::new(false), action, key: 0, calls: Cell::new(0) });
     let (rw, rf) = (re.clone(), re.clone());
     let (cw, cf) = (cbs & CB_WEIGHTER != 0, cbs & CB_FILTER != 0);
     let cache: Cache<E> = RawCache::new(RawCacheConfig {
@@ -729,6 +916,7 @@ where
         },
         metrics: Arc::new(Metrics::noop()),
     });
+    std::mem::forget(cache.clone()); // spare reference, see mk_cache
     let armed = cbs & CB_DROP != 0;
     let rp: *const Re = Arc::as_ptr(&re);
     // pre-state: full cache (two entries of weight 1); callbacks are not armed yet (cache pointer is null)
@@ -736,7 +924,10 @@ where
     drop(cache.insert(KEYS[1], DropVal { v: 1, re: rp, armed }));
     re.cache.set(&cache as *const Cache<E> as *const ());
 
-    let k = KEYS[any_key_idx()];
+    // insert / disk-only insert: symbolic key; remove / get return optional handles: concrete resident key 16
+    // keys are concrete (see `Sc::key`): inserts add the absent key 32 (evicting at capacity), remove / get use resident 16;
+    // the inserted value (weight 0..3, filter bit) is symbolic
+    let k = if op == OP_INSERT || op == OP_INSERT_DISK { KEYS[2] } else { KEYS[0] };
     match op {
         OP_INSERT => {
             let v: u64 = kani::any();
@@ -773,81 +964,69 @@ macro_rules! c16h {
         } }
     };
 }
-// listener re-enters with a write-locking operation (remove) - the strictest probe - on every notifying path
-c16h!(c16_fifo_listener_insert, FifoD, 0, FifoConfig::default(), CB_LISTENER, OP_INSERT, Some(1));
-c16h!(c16_fifo_listener_remove, FifoD, 0, FifoConfig::default(), CB_LISTENER, OP_REMOVE, Some(1));
-c16h!(c16_fifo_listener_clear, FifoD, 0, FifoConfig::default(), CB_LISTENER, OP_CLEAR, Some(1));
-c16h!(c16_fifo_listener_evictall, FifoD, 0, FifoConfig::default(), CB_LISTENER, OP_EVICT_ALL, Some(1));
-c16h!(c16_fifo_listener_insdisk, FifoD, 0, FifoConfig::default(), CB_LISTENER, OP_INSERT_DISK, Some(1));
+// listener re-enters with a write-locking operation on every notifying path
+c16h!(c16_fifo_listener_insert, FifoD, 0, FifoConfig::default(), CB_LISTENER, OP_INSERT, Some(0));
+c16h!(c16_fifo_listener_remove, FifoD, 0, FifoConfig::default(), CB_LISTENER, OP_REMOVE, Some(0));
+c16h!(c16_fifo_listener_clear, FifoD, 0, FifoConfig::default(), CB_LISTENER, OP_CLEAR, Some(0));
+c16h!(c16_fifo_listener_evictall, FifoD, 0, FifoConfig::default(), CB_LISTENER, OP_EVICT_ALL, Some(0));
+c16h!(c16_fifo_listener_insdisk, FifoD, 0, FifoConfig::default(), CB_LISTENER, OP_INSERT_DISK, Some(0));
 // weighter + filter re-enter during insert
-c16h!(c16_fifo_wf_insert, FifoD, 0, FifoConfig::default(), CB_WEIGHTER | CB_FILTER, OP_INSERT, Some(1));
+c16h!(c16_fifo_wf_insert, FifoD, 0, FifoConfig::default(), CB_WEIGHTER | CB_FILTER, OP_INSERT, Some(0));
 // value destructor re-enters (records must be released outside the critical section)
-c16h!(c16_fifo_drop_insert, FifoD, 0, FifoConfig::default(), CB_DROP, OP_INSERT, Some(1));
-c16h!(c16_fifo_drop_remove, FifoD, 0, FifoConfig::default(), CB_DROP, OP_REMOVE, Some(1));
-c16h!(c16_fifo_drop_clear, FifoD, 0, FifoConfig::default(), CB_DROP, OP_CLEAR, Some(1));
-c16h!(c16_fifo_drop_evictall, FifoD, 0, FifoConfig::default(), CB_DROP, OP_EVICT_ALL, Some(1));
-// symbolic nested action (get / remove / insert)
+c16h!(c16_fifo_drop_insert, FifoD, 0, FifoConfig::default(), CB_DROP, OP_INSERT, Some(0));
+c16h!(c16_fifo_drop_remove, FifoD, 0, FifoConfig::default(), CB_DROP, OP_REMOVE, Some(0));
+c16h!(c16_fifo_drop_clear, FifoD, 0, FifoConfig::default(), CB_DROP, OP_CLEAR, Some(0));
+c16h!(c16_fifo_drop_evictall, FifoD, 0, FifoConfig::default(), CB_DROP, OP_EVICT_ALL, Some(0));
+// symbolic nested action (fresh insert / replacing insert / disk-only insert)
 c16h!(c16_fifo_listener_insert_anyaction, FifoD, 0, FifoConfig::default(), CB_LISTENER, OP_INSERT, None);
 // LRU: lookups and handle drops take the write lock
-c16h!(c16_lru_listener_insert, LruD, 1, LRU_CFG, CB_LISTENER, OP_INSERT, Some(1));
-c16h!(c16_lru_drop_insert, LruD, 1, LRU_CFG, CB_DROP, OP_INSERT, Some(1));
-c16h!(c16_lru_drop_get, LruD, 1, LRU_CFG, CB_DROP | CB_LISTENER, OP_GET, Some(0));
+c16h!(c16_lru_listener_insert, LruD, 1, LRU_CFG, CB_LISTENER, OP_INSERT, Some(0));
+c16h!(c16_lru_drop_insert, LruD, 1, LRU_CFG, CB_DROP, OP_INSERT, Some(0));
+c16h!(c16_lru_drop_get, LruD, 1, LRU_CFG, CB_DROP | CB_LISTENER, OP_GET, Some(1));
 c16h!(c16_lru_listener_clear, LruD, 1, LRU_CFG, CB_LISTENER, OP_CLEAR, Some(0));
-c16h!(c16_sieve_listener_insert, SieveD, 2, SieveConfig {}, CB_LISTENER, OP_INSERT, Some(1));
-c16h!(c16_sieve_drop_insert, SieveD, 2, SieveConfig {}, CB_DROP, OP_INSERT, Some(1));
+c16h!(c16_sieve_listener_insert, SieveD, 2, SieveConfig {}, CB_LISTENER, OP_INSERT, Some(0));
+c16h!(c16_sieve_drop_insert, SieveD, 2, SieveConfig {}, CB_DROP, OP_INSERT, Some(0));
 
-// ---- cost experiments (temporary) ----
-verif_harness! { #[kani::stub(crate::inflight::InflightManager::take, crate::inflight::InflightManager::verif_take_none)] exp_e1_new, 5, {
-    let cache: Cache<FifoT> = mk_cache(2, FifoConfig::default(), None, None);
+// =====================================================================================================================
+// C17: the real HashTableIndexer (hashbrown, portable groups via --cfg miri) with keys that collide on all 64 hash bits
+// =====================================================================================================================
+verif_harness! { c17_hash_table_indexer_collision, 8, {
+    use crate::indexer::Indexer as _;
+    let mk = |k: u64, v: u64| -> Arc<Record<FifoT>> {
+        Arc::new(Record::new(Data { key: k, value: v, properties: HProps::default(), hash: k >> 4, weight: 1 }))
+    };
+    let mut ix: HashTableIndexer<FifoT> = HashTableIndexer::default();
+    let (a, b): (u64, u64) = if kani::any() { (16, 17) } else { (17, 16) };
+    let va: u64 = kani::any();
+    let vb: u64 = kani::any();
+    let ra = mk(a, va);
+    let rb = mk(b, vb);
+    assert!(ix.insert(ra.clone()).is_none());
+    assert!(ix.insert(rb.clone()).is_none(), "C17: inserting a colliding key replaced the other key's entry");
+    assert!(Arc::ptr_eq(ix.get(1, &a).expect("C17: first of two colliding keys lost"), &ra), "C17: lookup returned the colliding key's record");
+    assert!(Arc::ptr_eq(ix.get(1, &b).expect("C17: second of two colliding keys lost"), &rb), "C17: lookup returned the colliding key's record");
+    assert!(ix.get(1, &18u64).is_none() && ix.get(2, &32u64).is_none());
+    // overwrite one key: the old record of THAT key comes back, the twin stays
+    let ra2 = mk(a, va ^ 1);
+    let old = ix.insert(ra2.clone()).expect("overwrite must return the old record");
+    assert!(Arc::ptr_eq(&old, &ra), "C17: overwrite evicted the colliding key's record");
+    assert!(Arc::ptr_eq(ix.get(1, &b).unwrap(), &rb));
+    // remove the twin (symbolic choice which one)
+    let (x, y, rx_, ry) = if kani::any() { (a, b, &ra2, &rb) } else { (b, a, &rb, &ra2) };
+    let removed = ix.remove(1, &x).expect("C17: remove missed a present colliding key");
+    assert!(Arc::ptr_eq(&removed, rx_), "C17: remove took the colliding key's record");
+    assert!(ix.get(1, &x).is_none());
+    assert!(Arc::ptr_eq(ix.get(1, &y).expect("C17: removing one key removed its twin"), ry));
     kani::cover!(true, "end reached");
-    std::mem::forget(cache);
+    std::mem::forget((ra, rb, ra2, old, removed));
+    std::mem::forget(ix);
 } }
-verif_harness! { #[kani::stub(crate::inflight::InflightManager::take, crate::inflight::InflightManager::verif_take_none)] exp_e2_ins1, 5, {
-    let cache: Cache<FifoT> = mk_cache(2, FifoConfig::default(), None, None);
-    let e = cache.insert(16, 1);
-    std::mem::forget(e);
-    kani::cover!(true, "end reached");
-    std::mem::forget(cache);
-} }
-verif_harness! { #[kani::stub(crate::inflight::InflightManager::take, crate::inflight::InflightManager::verif_take_none)] exp_e3_ins2_rm, 5, {
-    let cache: Cache<FifoT> = mk_cache(2, FifoConfig::default(), None, None);
-    let e = cache.insert(16, 1);
-    drop(e);
-    let e = cache.insert(17, 1);
-    drop(e);
-    let r = cache.remove(&16);
-    assert!(r.is_some());
-    assert!(cache.usage() == 1);
-    std::mem::forget(r);
-    kani::cover!(true, "end reached");
-    std::mem::forget(cache);
-} }
-verif_harness! { #[kani::stub(crate::inflight::InflightManager::take, crate::inflight::InflightManager::verif_take_none)] exp_e4_ins2_rmsym, 5, {
-    let cache: Cache<FifoT> = mk_cache(2, FifoConfig::default(), None, None);
-    let e = cache.insert(16, 1);
-    drop(e);
-    let e = cache.insert(17, 1);
-    drop(e);
-    let k = KEYS[any_key_idx()];
-    let r = cache.remove(&k);
-    assert!(r.is_some() == (k != 32));
-    std::mem::forget(r);
-    kani::cover!(true, "end reached");
-    std::mem::forget(cache);
-} }
-verif_harness! { #[kani::stub(crate::inflight::InflightManager::take, crate::inflight::InflightManager::verif_take_none)] exp_e5_ins3sym, 5, {
-    let cache: Cache<FifoT> = mk_cache(2, FifoConfig::default(), None, None);
-    let e = cache.insert(16, 1);
-    drop(e);
-    let e = cache.insert(17, 1);
-    drop(e);
-    let k = KEYS[any_key_idx()];
-    let v: u64 = kani::any();
-    kani::assume(v < 4);
-    let e = cache.insert(k, v);
-    assert!(cache.usage() <= 2 || v == 3);
-    std::mem::forget(e);
-    kani::cover!(true, "end reached");
-    std::mem::forget(cache);
-} }
-step_harness!(exp_x1_remove_noobs, FifoT, FifoConfig::default(), sc(Some(2), FULL2, 2, false, false, false, OP_REMOVE));
+
+// native replay of counterexamples: bin/check writes the unit test Kani generated (`--concrete-playback=print`) into the
+// included file and runs `cargo kani playback`; the file is empty otherwise.
+#[allow(unused_imports, dead_code)]
+mod playback {
+    use super::*;
+    include!("/verif/harness/playback/foyer-memory/raw__verif_kani.rs");
+}
+
